@@ -593,7 +593,7 @@ pub fn sheet(r: &mut R) -> String {
     let mut s = ows(r);
     for _ in 0..1 + r.b(4) {
         match r.b(10) {
-            0 => s.push_str(r.pick(&["@media print { p{color:red;} }", "@import 'x';", "@charset \"u\";", "@x [a(b)] {c}", "@font-face{font-family:x;}", "@media (a:b) and (c) { }", "@x # ;"])),
+            0 => s.push_str(r.pick(&["@media print { p{color:red;} }", "@import 'x';", "@charset \"u\";", "@x [a(b)] {c}", "@font-face{font-family:x;}", "@media (a:b) and (c) { }", "@x # ;", "@import url(https://f.example/css2?family=R:wght@400;700&display=swap);", "@import url(data:text/css;base64,cHt9);", "@x-junk [a;b] foo;", "@y (a;b) [c;(d;e)] ;", "@z f(a;b){q{r:s;}}"])),
             1 => s.push_str(r.pick(&["%%% {x:y;}", "p{{}}", "} p{color:red;}", "p{color:red;", "<!-- p{color:red;} -->", "p{color:é;}", ".é{color:red;}"])),
             _ => s.push_str(&ruleset(r)),
         }
